@@ -260,6 +260,7 @@ PROPS["C12"] = {
         K("c12_remove_claims_k2", "after remove_claims(P) nothing names P; Q's entries unchanged and in order"),
         K("c12_remove_claims_k0", "", T), K("c12_remove_claims_k1", "", T), K("c12_remove_claims_k3", "", T),
         K("c11_sweep_removes_exactly_expired", "claims not re-announced are gone once their expiry has passed"),
+        K("c12_timed_out_peer_loses_routes_and_is_redialled", "the removal loop behind housekeep's expiry loop (`for addr in del`, extracted from src/cloud.rs; remove_claims / connect_sock recorded): every selected peer leaves the peer table, its claims are removed and its address is re-dialled; the other peer stays"),
         K("c11_routing_step_p2", "repair path: a table decision that names a non-peer has its claims removed and the address re-dialled at the first payload (extracted `match self.table.lookup(dst)` of handle_interface_data)", role="c11_routing_step"),
     ],
 }
@@ -368,6 +369,7 @@ PROPS["C15"] = {
         K("c15_keepalive_default_and_explicit", "get_keepalive: explicit value, else max(timeout/2-60, 1) without fault; update_freq cast", role="c15_keepalive"),
         K("c15_backoff_step", "back-off invariant 1 <= interval <= 3600, tries <= 10; doubles at most; next = now + interval"),
         K("c15_silent_peer_expires_exactly_after_timeout", "refresh sets expiry = now + own timeout; the tick expires exactly the peers silent for longer than the timeout"),
+        K("c12_timed_out_peer_loses_routes_and_is_redialled", "a peer selected by the expiry loop is removed with its routes and re-dialled (extracted removal loop of housekeep)"),
     ],
 }
 
